@@ -7,10 +7,12 @@ import (
 	"io"
 	"net"
 	"os"
+	"os/signal"
 	"strconv"
 	"strings"
 	"sync"
 	"sync/atomic"
+	"syscall"
 	"time"
 
 	"verifharness/lib/kit"
@@ -160,15 +162,60 @@ func (s *Scripted) serve(c net.Conn) {
 // ---- scripted stdio server child (byte-level control over stdout) ----
 //
 // C08_SCRIPT: partial-exit | partial-closeout | partial-stall | noeol-exit | pre-exit | pre-closeout
-// C08_FRAC:   fraction of the answer line written before the fault (partial-*)
+//
+//	hold-init | hold-init-mid | hold-call | hold-call-mid: the answer to initialize / to the first tools/call is
+//	held back (before its first byte / after C08_FRAC of the line) until the file C08_GO exists; the file
+//	C08_MARK is created when the hold begins. Afterwards the child goes on serving.
+//
+// C08_FRAC:   fraction of the answer line written before the fault (partial-*, hold-*-mid)
+// C08_CHILD:  default | ignores-sigint | lingers (ignores SIGINT and SIGPIPE and stays after the end of its stdin)
 func stdioScriptChild() {
 	mode := os.Getenv("C08_SCRIPT")
 	frac, _ := strconv.ParseFloat(os.Getenv("C08_FRAC"), 64)
+	mark, gofile := os.Getenv("C08_MARK"), os.Getenv("C08_GO")
+	parent := os.Getppid()
+	orphaned := func() bool { return os.Getppid() != parent }
+	switch os.Getenv("C08_CHILD") {
+	case "ignores-sigint":
+		signal.Ignore(syscall.SIGINT)
+	case "lingers":
+		signal.Ignore(syscall.SIGINT, syscall.SIGPIPE)
+	}
+	// held writes the line with a hold before its first byte (mid=false) or after frac of it
+	held := func(ans string, mid bool) {
+		cut := 0
+		if mid {
+			cut = int(frac * float64(len(ans)))
+			if cut < 1 {
+				cut = 1
+			}
+			if cut >= len(ans) {
+				cut = len(ans) - 1
+			}
+			os.Stdout.WriteString(ans[:cut])
+		}
+		if mark != "" {
+			os.WriteFile(mark, nil, 0o644)
+		}
+		for t0 := time.Now(); gofile != "" && time.Since(t0) < 90*time.Second && !orphaned(); time.Sleep(3 * time.Millisecond) {
+			if _, err := os.Stat(gofile); err == nil {
+				break
+			}
+		}
+		os.Stdout.WriteString(ans[cut:] + "\n")
+	}
+	heldCall := false
 	rd := bufio.NewReaderSize(os.Stdin, 1<<20)
 	faulted := false
 	for {
 		line, err := rd.ReadBytes('\n')
 		if err != nil {
+			if os.Getenv("C08_CHILD") == "lingers" {
+				// stays although its stdin ended: only a kill ends it (bounded, and not beyond its parent's life)
+				for t0 := time.Now(); time.Since(t0) < 90*time.Second && !orphaned(); {
+					time.Sleep(20 * time.Millisecond)
+				}
+			}
 			return
 		}
 		var m struct {
@@ -182,8 +229,19 @@ func stdioScriptChild() {
 			continue
 		}
 		switch {
+		case m.Method == "initialize" && (mode == "hold-init" || mode == "hold-init-mid"):
+			held(fmt.Sprintf(`{"jsonrpc":"2.0","id":%s,"result":{"protocolVersion":"2025-03-26","capabilities":{"tools":{}},"serverInfo":{"name":"scripted-stdio","version":"1"}}}`, m.ID), mode == "hold-init-mid")
 		case m.Method == "initialize":
 			fmt.Fprintf(os.Stdout, `{"jsonrpc":"2.0","id":%s,"result":{"protocolVersion":"2025-03-26","capabilities":{"tools":{}},"serverInfo":{"name":"scripted-stdio","version":"1"}}}`+"\n", m.ID)
+		case m.Method == "tools/call" && strings.HasPrefix(mode, "hold-"):
+			text, _ := json.Marshal(echoText(m.Params.Arguments))
+			ans := fmt.Sprintf(`{"jsonrpc":"2.0","id":%s,"result":{"content":[{"type":"text","text":%s}]}}`, m.ID, text)
+			if !heldCall && (mode == "hold-call" || mode == "hold-call-mid") {
+				heldCall = true
+				held(ans, mode == "hold-call-mid")
+			} else {
+				os.Stdout.WriteString(ans + "\n")
+			}
 		case m.Method == "tools/call":
 			if faulted {
 				continue // the other pending calls are never answered
